@@ -7,7 +7,13 @@ EffSeq(c) == [i \in DOMAIN c.routes |-> Eff(c)[i]]
 EmitCfg == PrintT("@@H " \o ToJson([cfg |-> file, defect |-> defect, valid |-> Accepts(file),
                                     wf |-> WellFormed(file), clauses |-> Clauses(file),
                                     rt |-> RoundTripOK(file), gap |-> EmptyGroupByGap(file),
-                                    eff |-> EffSeq(file)]))
+                                    gapsec |-> EmptySecretPointerGap(file),
+                                    eff |-> EffSeq(file),
+                                    \* time interval bodies: the values the loader must store and
+                                    \* the tokens the textual form must show; secrets: what the
+                                    \* textual form shows in their place
+                                    bvals |-> BodyVals(file), bprinted |-> PrintedBodies(file),
+                                    secp |-> [i \in DOMAIN file.sec |-> SecretPrinted(file.sec[i])]]))
 
 (* Gen, coordinator: complete histories of HistLen operations.                *)
 VARIABLE hist
@@ -26,4 +32,9 @@ EmitCoord == Len(hist) = HistLen => PrintT("@@H " \o ToJson(hist))
 GenCfgInit == CfgInit /\ hist = << >>
 GenCfgNext == CfgNext /\ UNCHANGED hist
 GenCfgSpec == GenCfgInit /\ [][GenCfgNext]_<<vars, hist>>
+
+(* Gen, time interval bodies and secrets (SpecBody of MC_Config).               *)
+GenBodyInit == BodyInit /\ hist = << >>
+GenBodyNext == BodyNext /\ UNCHANGED hist
+GenBodySpec == GenBodyInit /\ [][GenBodyNext]_<<vars, hist>>
 =============================================================================
